@@ -46,6 +46,16 @@ Theorem mean_sum_finite :
 Proof. exact sum_of_bounded_values_finite. Qed.
 Print Assumptions mean_sum_finite.
 
+(** ... and the mean itself (the sum divided by the sample size as f64) is finite: the [unwrap]
+    of [FiniteF64::new(mean)] in [summary_obj_func_val] cannot fail on such values *)
+Theorem mean_finite :
+  forall l : list f64,
+    l <> [] -> (Z.of_nat (length l) < 2^26)%Z ->
+    Forall (fun v => fin v = true /\ (Rabs (R_ v) <= bpow radix2 997)%R) l ->
+    fin (fmean l) = true.
+Proof. exact mean_of_bounded_values_finite. Qed.
+Print Assumptions mean_finite.
+
 (** after a stop the run makes progress with every processed completion and returns when the
     in-flight set is empty: it cannot spin or wait for anything but the evaluations in flight *)
 Theorem stop_drains :
